@@ -481,9 +481,9 @@ def check_cr_table(run, F):
                 try:
                     env = {dt_local: ('DT', t)}
                     for st in fn.hir.get('stmts', []):
-                        if st['k'] == 'Let' and st['pat'].get('k') == 'Binding' and 'init' in st:
+                        if st['k'] == 'Let' and 'init' in st:
                             try:
-                                env[st['pat']['local']] = E.ev(st['init'], env, F)
+                                E.bind_let(st, env, F)
                             except E.Unk:
                                 pass
                     args = [E.ev(a, env, F) for a in c['ch'][1:]]
